@@ -272,6 +272,12 @@ theorem instrRT_writeMetadata (ln md mk : Nat) (hln : ln < 65536) (hmd : md < 18
   obtain ⟨h1, h2, h3⟩ := instrWriteMetadata_rt ln md mk 0 hln hmd hmk
   exact ⟨h1, h2, by simp, by simp, h3⟩
 
+theorem instrRT_meter (ln mid : Nat) (hln : ln < 65536) (hmid : mid < 4294967296) :
+    InstrRT (.obj "InstrMeter" [.obj "InstrHeader" [.num Gen.openflow13.InstrType_METER, .num ln], .num mid])
+      (be16 (n16 Gen.openflow13.InstrType_METER) ++ be16 (n16 ln) ++ be32 (n32 mid)) := by
+  obtain ⟨h1, h2, h3⟩ := instrMeter_rt ln mid hln hmid
+  exact ⟨h1, h2, by simp, by simp, h3⟩
+
 theorem instrRT_actions (ty ln : Nat) (as : List V) (encs : List Bytes)
     (hty : ty = Gen.openflow13.InstrType_WRITE_ACTIONS ∨ ty = Gen.openflow13.InstrType_APPLY_ACTIONS ∨
       ty = Gen.openflow13.InstrType_CLEAR_ACTIONS)
